@@ -277,8 +277,10 @@ class RIBFamily:
           package and records one event per specification action with the projected state after each call;
        4. TLC validates the trace against GribiRIBTrace; reported deviations are attributed to properties."""
 
-    def __init__(self, prop, mc, sims, exh, random_cfg):
+    def __init__(self, prop, mc, sims, exh, random_cfg, directed=None, extra_mc=None):
         self.prop, self.mc, self.sims, self.exh, self.random_cfg = prop, mc, sims, exh, random_cfg
+        self.directed = directed      # callable(ctx) -> list of input sequences (JSON strings) added to the TLC-emitted ones
+        self.extra_mc = extra_mc      # callable(ctx) -> list of model-checking records of further specification modules
 
     def tier(self, ctx, d):
         return d[ctx.tier] if isinstance(d, dict) and ctx.tier in d else d
@@ -297,6 +299,8 @@ class RIBFamily:
                                      seed=ctx.seed * 1000 + i, cfg_text=self.cfg(EmitOn=True, invariants=False, **kw),
                                      timeout=1800), "simulation emission")
             walks += run.emitted()
+        if self.directed:
+            walks += self.directed(ctx)
         walks = list(dict.fromkeys(walks))
         return walks, nexh
 
@@ -313,6 +317,9 @@ class RIBFamily:
             args = [self.VH_CMD, "-out", o, "-seed", str(ctx.seed)] + (["-in", wf] if first else []) + self.vh_args(ctx, prof)
             p = ctx.run_vh(args)
             if p.returncode != 0:
+                crash = vlib.gribigo_panic(p.stderr)
+                if crash and self.prop in ("C12", "C11", "C10"):
+                    raise vlib.Crash(crash)
                 raise Infra(f"vh {self.VH_CMD} failed: " + p.stdout[-2000:] + p.stderr[-4000:])
             part = json.loads(p.stdout.strip().splitlines()[-1])
             for k, v in part.items():
@@ -398,9 +405,20 @@ class RIBFamily:
             trans += run.generated
             mcs.append({"constants": {k: (list(v) if isinstance(v, tuple) else v) for k, v in kw.items()},
                         "distinct_states": run.distinct, "generated": run.generated, "depth": run.depth, "secs": round(run.secs, 1)})
+        if self.extra_mc:
+            mcs += self.extra_mc(ctx)
         walks, nexh = self.gen_walks(ctx, res)
         trace = os.path.join(ctx.work, "trace.ndjson")
-        info = self.record(ctx, walks, trace)
+        try:
+            info = self.record(ctx, walks, trace)
+        except vlib.Crash as c:
+            # the process running the code under test died with a panic raised inside gribigo: the verdict of "cannot crash"
+            rp = os.path.join(vlib.ROOT, "replays", f"{ctx.prop}-crash-{vlib.sha(c.text[:3000])}.txt")
+            open(rp, "w").write(c.text)
+            res.violations.append({"replay": rp, "what": "the process driving the real code died with a panic raised inside openconfig/gribigo: " + c.text.splitlines()[0][:200]})
+            res.coverage = {"states": states, "transitions": trans, "traces_validated_against_impl": 0, "evaluations": 0, "distinct_nontrivial": 0,
+                            "samples": [["crashed"]], "rule": self.rule(), "model_checking": mcs}
+            return res
         if info.get("gate_missing"):
             raise Infra("a gated call never reached its gate: a verif hook of the implementation is missing (MANIFEST.hooks)")
         run, mism = self.validate(ctx, trace)
@@ -707,7 +725,11 @@ class ServerFamily(RIBFamily):
         return srv_events_to_inputs(evs)
 
     def vh_args(self, ctx, rc):
-        return ["-random", str(rc["n"]), "-len", str(rc["len"]), "-profile", rc.get("profile", "mixed")]
+        a = ["-random", str(rc["n"]), "-len", str(rc["len"]), "-profile", rc.get("profile", "mixed")]
+        if rc.get("profile") == "get":
+            # one Get per run is read by a slow consumer (C07: every entry must still arrive; C10: nobody is blocked meanwhile)
+            a += ["-getstall", "1500ms" if ctx.tier == "quick" else "6500ms"]
+        return a
 
     def rule(self):
         return SRV_RULE.get(self.prop, "")
@@ -774,8 +796,13 @@ class CompositeFamily:
         cov = {"states": 0, "transitions": 0, "traces_validated_against_impl": 0, "evaluations": 0,
                "distinct_nontrivial": 0, "samples": [], "parts": {}, "exhaustive": False}
         rules = []
+        infra = []
         for part in self.parts:
-            r = part.run(ctx)
+            try:
+                r = part.run(ctx)
+            except Infra as e:
+                infra.append((part.FAMILY, e))
+                continue
             res.violations += r.violations
             res.known += [k for k in r.known if k not in res.known]
             res.notes += r.notes
@@ -787,6 +814,11 @@ class CompositeFamily:
             rules.append(f"[{part.FAMILY}] " + r.coverage.get("rule", ""))
         cov["rule"] = " ; ".join(rules)
         res.coverage = cov
+        if infra:
+            if not res.violations:
+                raise infra[0][1]
+            for fam, e in infra:
+                res.notes.append(f"part {fam} could not run: {str(e)[:300]}")
         return res
 
     def replay(self, ctx, path):
@@ -817,7 +849,47 @@ _c12_srv = ServerFamily("C12",
     random_cfg=_rnd(["bad"], 100, 1000))
 REGISTRY["C12"] = CompositeFamily("C12", [_c12_rib, _c12_srv])
 
-_srv("C10",
+def _nh(id, ni, key, eid=(0, 1), typ="ADD"):
+    return {"id": id, "ni": ni, "typ": typ, "kind": "nh", "key": str(key), "pl": "a" if typ != "DELETE" else "", "nhs": [], "bk": "", "g": "", "gni": "",
+            "bad": "", "eid": list(eid), "noeid": False}
+
+
+def _msg(s, m, sendfail=False):
+    return {"a": "msg", "s": s, "m": m, "sendfail": sendfail}
+
+
+def c10_directed(ctx):
+    """The scenario of GribiGetProc on the real server: a Get over two populated instances whose consumer leaves after k
+    responses (every k), then a writer (an ADD in each instance, a Flush) and a complete Get must be served."""
+    pre = [{"a": "sreset", "nis": ["DEFAULT", "vrf1"], "fwd": True}, {"a": "open", "s": "s1"},
+           _msg("s1", {"k": "params", "red": "SINGLE_PRIMARY", "per": "PRESERVE", "ack": "RIB"}), _msg("s1", {"k": "elec", "id": [0, 1]}),
+           _msg("s1", {"k": "ops", "ops": [_nh(1, "DEFAULT", 1), _nh(2, "DEFAULT", 2), _nh(3, "vrf1", 1), _nh(4, "vrf1", 2)]})]
+    out = []
+    for scope in ("*", "DEFAULT", "vrf1"):
+        w, oid = list(pre), 10
+        for k in range(0, 5):
+            w.append({"a": "get", "g": {"ni": scope, "aft": "ALL"}, "failafter": k})
+            w.append(_msg("s1", {"k": "ops", "ops": [_nh(oid, "DEFAULT", 3 + k), _nh(oid + 1, "vrf1", 3 + k)]}))
+            oid += 2
+            w.append({"a": "get", "g": {"ni": "*", "aft": "nh"}})
+        w.append({"a": "flushrpc", "r": {"ni": "*", "el": "override", "id": [0, 0]}})
+        w.append({"a": "get", "g": {"ni": "*", "aft": "ALL"}})
+        out.append(json.dumps(w))
+    return out
+
+
+def c10_getproc_mc(ctx):
+    recs = []
+    for nni, per in ((2, 2),) if ctx.tier == "quick" else ((2, 2), (3, 3)):
+        cfg = (f"SPECIFICATION GSpec\nCONSTANTS\n  NNI = {nni}\n  PerNI = {per}\n  StopByClose = TRUE\nINVARIANTS LocksBalanced\n"
+               "PROPERTIES ProducerEnds LocksReleased WriterServed NoFaultDeliversAll\nCHECK_DEADLOCK FALSE\n")
+        run = require_ok(ctx.tlc("GribiGetProc", None, name="mc-getproc", workers=4, cfg_text=cfg, timeout=1800), "model checking GribiGetProc")
+        recs.append({"module": "GribiGetProc", "constants": {"NNI": nni, "PerNI": per, "StopByClose": True},
+                     "properties": "ProducerEnds LocksReleased WriterServed NoFaultDeliversAll (weak fairness)", "distinct_states": run.distinct, "secs": round(run.secs, 1)})
+    return recs
+
+
+_srv("C10", directed=c10_directed, extra_mc=c10_getproc_mc,
      mc={"quick": [dict(MaxMsgs=5, MaxOpen=2, HiVals=(0,), LoVals=(1, 2), StampModes=("last",), WithSendFail=True)],
          "thorough": [dict(MaxMsgs=6, MaxOpen=3, HiVals=(0,), LoVals=(1, 2), StampModes=("last",), WithSendFail=True, OpShapes="chain")]},
      sims={"quick": [(dict(_S_SIM_OPS, WithSendFail=True), 150, 400), (dict(_S_SIM_ELEC, WithSendFail=True), 100, 300)],
@@ -1652,7 +1724,7 @@ class ConcFamily:
         raise Infra("concurrent scenarios are re-run with ./check C11 --seed <seed>")
 
 
-REGISTRY["C11"] = CompositeFamily("C11", [ConcFamily("C11"), SchedFamily("C11")])
+REGISTRY["C11"] = CompositeFamily("C11", [ConcFamily("C11"), SchedFamily("C11"), LinFamily("C11")])
 
 
 # ---------------------------------------------------------------------------
